@@ -161,6 +161,7 @@ def plan(ctx):
     units += [("ordered", d, i, 4) for d in DRAFTS for i in range(4)]
     units += [("mutated", d, i, 2) for d in DRAFTS for i in range(2)]
     units += [("long", d, pi) for d in DRAFTS for pi in range(len(LONG_PAIRS))]
+    units += [("aliased", d, i, 2) for d in DRAFTS for i in range(2)]
     for d in ((7, 3) if ctx.tier == "quick" else DRAFTS):
         for ci in range(len(T_CASES)):
             for form in (("enum1", "const", "uniqueItems") if d >= 6 else ("enum1", "uniqueItems")):
@@ -170,7 +171,8 @@ def plan(ctx):
                         units.append(("threads", d, ci, form, shared, "line", 1))
     return {
         "units": units,
-        "rule": ("L: arrays of 9, 17, 33, 65, 129, 257 (thorough: 513, 1025) elements -- mixed containers and scalars, "
+        "rule": ("A: enum members / const values / array elements that hold the SAME container object (by identity), "
+                 "for every container of the 40-value sub-universe against every value.  L: arrays of 9, 17, 33, 65, 129, 257 (thorough: 513, 1025) elements -- mixed containers and scalars, "
                  "pairwise different except one pair out of 10 (1 / 1.0 inside arrays and objects, key order, true / 1, "
                  "[] / {}) placed adjacent, at the ends, or around the middle -- through uniqueItems and as enum "
                  "member lists.  T: two real threads validate the SAME instance object against the SAME schema object (one validator "
@@ -832,9 +834,50 @@ def run_long(unit, ctx):
             "counters": {"violating_executions": bag.total, "long_array_cases": ev}}
 
 
+def run_aliased(unit, ctx):
+    """Schemas built in Python (or loaded from YAML with anchors) share sub-objects by identity: enum members
+    [S, 1] and [S, 2] holding the SAME container S, const / instances holding the same object twice."""
+    _, d, shard, nsh = unit
+    bag = Bag()
+    ev = nt = 0
+    outcomes = {}
+    cont = [i for i, v in enumerate(A40) if isinstance(v, (list, dict))]
+    for ii in range(shard, len(cont), nsh):
+        ia = cont[ii]
+        sub = fresh_copy(A40[ia])
+        for ib in range(len(A40)):
+            other = A40[ib]
+            same_sub = KA40[ia] == KA40[ib]
+            cases = [
+                ("enum-members-share", {"enum": [[sub, 1], [sub, 2]]}, [fresh_copy(other), 2], same_sub),
+                ("enum-members-share-obj", {"enum": [{"from": sub, "kind": "line"}, {"from": sub, "kind": "arc"}]},
+                 {"from": fresh_copy(other), "kind": "arc"}, same_sub),
+                ("enum-three-members-share", {"enum": [[sub, [sub]], [sub, 0], [[sub], sub]]}, [[fresh_copy(other)], fresh_copy(other)], same_sub),
+                ("unique-same-object-twice", {"uniqueItems": True}, [[sub, 1], [sub, 2], [fresh_copy(other), 2]], not same_sub),
+            ]
+            if d >= 6:
+                cases.append(("const-shares", {"const": [sub, sub]}, [fresh_copy(other), sub], same_sub))
+            for name, S, inst, _unused in cases:
+                exp = equality.expected_valid(S, inst)        # the model never looks at object identity
+                g = observe(CLS[d](S), inst)
+                ev += 1
+                nt += 1
+                oc = "aliased:%s:%s" % (name, "valid" if exp else "invalid")
+                outcomes[oc] = outcomes.get(oc, 0) + 1
+                if g is not exp:
+                    bag.add({"signature": "C08|members-share-a-container|%s|%s" % (name, "accepts" if g is True else ("rejects" if g is False else g)),
+                             "size": size_of(sub, other),
+                             "case": {"draft": d, "form": "aliased", "which": name, "sub": A40[ia], "other": other},
+                             "detail": {"observed": g, "expected_valid": exp}})
+    return {"evaluations": ev, "nontrivial": nt, "violations": bag.all(), "samples": [], "outcomes": outcomes,
+            "counters": {"violating_executions": bag.total, "aliased_cases": ev}}
+
+
 def run_unit(unit, ctx):
     if unit[0] == "pairs":
         return run_pairs(unit, ctx)
+    if unit[0] == "aliased":
+        return run_aliased(unit, ctx)
     if unit[0] == "long":
         return run_long(unit, ctx)
     if unit[0] == "threads":
@@ -853,6 +896,10 @@ def replay(case, ctx):
     if case["form"] == "check_schema":
         ok = check_schema_ok(d, case["schema"])
         return {"reproduced": not ok, "check_schema_accepts": ok}
+    if case["form"] == "aliased":
+        r = run_aliased(("aliased", d, 0, 1), ctx)
+        hit = [v for v in r["violations"] if v["case"]["which"] == case["which"]]
+        return {"reproduced": bool(hit), "violations": len(r["violations"])}
     if case["form"] == "long":
         a, b = LONG_PAIRS[case["pair"]]
         arr = long_arrays(case["n"], case["pair"], case["layout"])
